@@ -116,6 +116,26 @@ class Ref:
             raise RFail(fails)
         return vals
 
+    def all_deep(self, thunks, o, depth):
+        """all_of for template references: when some reference is missing, the values that *are* present
+        are still resolved so that their own missing references count as possible failures too."""
+        vals, fails = [], set()
+        for t in thunks:
+            try:
+                vals.append(t())
+            except RFail as f:
+                fails |= f.fails
+                vals.append(None)
+        if fails:
+            for v in vals:
+                if v is not None:
+                    try:
+                        self.subst(v, o, depth + 1)
+                    except RFail as f:
+                        fails |= f.fails
+            raise RFail(fails)
+        return vals
+
     # -- option access --------------------------------------------------------------------------------
     def subst(self, value, o, depth=0):
         """Resolve templated strings inside an option value against o."""
@@ -134,7 +154,7 @@ class Ref:
                 raw = self.get_ref(refs[0], o)
                 return self.subst(raw, o, depth + 1)
             s = value
-            raws = self.all_of([(lambda r=r: self.get_ref(r, o)) for r in dict.fromkeys(refs)])
+            raws = self.all_deep([(lambda r=r: self.get_ref(r, o)) for r in dict.fromkeys(refs)], o, depth)
             for r, raw in zip(dict.fromkeys(refs), raws):
                 s = s.replace("{" + r + "}", str(raw))
             return self.subst(s, o, depth + 1)
@@ -216,8 +236,8 @@ class Ref:
         refs = list(dict.fromkeys(find_refs(s)))
         names = list(params.keys())
         plain = [r for r in refs if not (r.startswith(":") and r.endswith(":") and r[1:-1] in params)]
-        vals = self.all_of([(lambda pn=pn: self.ev(pn, o)) for pn in params.values()]
-                           + [(lambda r=r: self.get_ref(r, o)) for r in plain])
+        vals = self.all_deep([(lambda pn=pn: self.ev(pn, o)) for pn in params.values()]
+                             + [(lambda r=r: self.get_ref(r, o)) for r in plain], o, 0)
         pv = dict(zip(names, vals[:len(names)]))
         rv = dict(zip(plain, vals[len(names):]))
         if not refs:
